@@ -1,17 +1,18 @@
-\* subscriber critical sections interleaved with the publisher's wake-up loop (TLC only, not replayed)
+\* copy of a collected / woken subscriber (waiter resumed earlier in the same wake-up loop copies a later one): three
+\* identities (a, o, c), nobody leaves; tools/checks/c16.py overrides the bounds by appending CONSTANTS
 SPECIFICATION Spec
 CONSTANTS
   NSubs = 2
   MinLen = 1
-  MaxLen = 2
-  Modes = {"all", "recent"}
-  Styles = {"split"}
-  MaxPub = 3
+  MaxLen = 99
+  Modes = {"all"}
+  Styles = {"split", "coro", "loop", "block", "poll"}
+  MaxPub = 4
   MaxBatch = 2
-  MaxJoin = 2
-  AtPos = {0}
+  MaxJoin = 3
+  AtPos = {0, 1, 2, 3, 4, 5}
   MaxKick = 1
-  Serial = FALSE
+  Serial = TRUE
   CopyBusy = FALSE
   CopyWoken = FALSE
   Founders = {1, 2, 3, 4, 5}
@@ -22,4 +23,5 @@ CONSTANTS
   FixCopyOfWoken = TRUE
 INVARIANTS TypeOK WindowShape WindowSufficient GapFreeInOrder NoDuplicate SkipMonotone EOSOnlyWhen CloseWakesAll NoLostWaiter PosConsistent FreeListSound
 PROPERTIES RecentIsNewest BehindSkipsOnlyDropped NotReadyOnlyWhen CopyIndependent GrowOnlyWhenFull
+CONSTRAINT NobodyLeft
 CHECK_DEADLOCK FALSE
